@@ -101,7 +101,12 @@ ToIntensity == cur.kind = "pol" /\ LET s == IntensityOf(cur) IN Do("to_intensity
 StokesItem == cur.kind = "stokes" /\ \E j \in 1..4 :
                 LET s == NormS(<<cur.s[j]>>, cur.k)
                 IN Do(<<"I", "Q", "U", "V">>[j], [kind |-> "item", s |-> s.s, k |-> s.k, j |-> j, of |-> cur])
-Next == ToLinear \/ ToCircular \/ ToStokes \/ ToIntensity \/ StokesItem
+\* component access by a name that is NOT one of "I", "Q", "U", "V" is refused (KeyError); which sample the signal
+\* holds is irrelevant, so these behaviours are generated for the all-zero starting sample only
+BadKeys == {"", "IQ", "QU", "UV", "IQU", "QUV", "IQUV", "IV", "II", "i", "q", "u", "v", "X", "L", "R", "stokesI", "I ", " I", "0"}
+BadItem == /\ cur.kind = "stokes" /\ orig.a = GZero /\ orig.b = GZero
+           /\ \E key \in BadKeys : Do(key, [kind |-> "refused", key |-> key])
+Next == ToLinear \/ ToCircular \/ ToStokes \/ ToIntensity \/ StokesItem \/ BadItem
 Spec == Init /\ [][Next]_vars
 
 (***************************************************************************)
@@ -134,5 +139,8 @@ Polarised == cur.kind = "stokes" =>
 \* I = to_intensity summed over the two polarisations
 IntensitySum == IsPol => LET i == IntensityOf(cur)
                          IN NormS(<<i.s[1] + i.s[2]>>, i.k) = NormS(<<StokesOf(cur).s[1]>>, StokesOf(cur).k)
+\* only the four component names are answered
+OnlyNamesAnswered == /\ cur.kind = "item" => hist[Len(hist)] \in {"I", "Q", "U", "V"}
+                     /\ cur.kind = "refused" => cur.key \notin {"I", "Q", "U", "V"}
 ItemIsComponent == cur.kind = "item" => NormS(<<cur.of.s[cur.j]>>, cur.of.k) = [s |-> cur.s, k |-> cur.k]
 =============================================================================
